@@ -263,6 +263,7 @@ class Interp:
         raise Unsupported('non-constant in constant expr')
     def gep(s, sty, base, idxs):
         if isinstance(base, FnPtr): return base
+        if not isinstance(base, Ptr): raise Unsupported('gep on non-pointer base %r in %s' % (base, s.callstack[-1] if s.callstack else '?'))
         off = 0; ty = sty
         for n, i in enumerate(idxs):
             if is_sym(i): raise Unsupported('symbolic GEP index')
@@ -460,7 +461,10 @@ class Interp:
         if mdl is not None: return mdl(s, args)
         f = s.m.funcs.get(fname)
         if f is None: raise Unsupported('external function without model: ' + fname)
-        s.funcs_run.add(fname)
+        s.funcs_run.add(fname); s.callstack.append(fname)
+        try: return s._run(f, fname, args)
+        finally: s.callstack.pop()
+    def _run(s, f, fname, args):
         env = {}
         for (pn, pty), a in zip(f.params, args): env[pn] = a
         lbl = f.order[0]; prev = None
